@@ -113,6 +113,29 @@ def n_adapt(it, a, d, m):
             else:
                 out += list(sub)
         return It(out)
+    if kind in ("find", "position", "any", "all"):
+        span = re.search(r"\{closure@([^}]*)\}", m.group(0))
+        fn = closure_fn(it, span.group(1))
+        idx = 0
+        while src.items:
+            x = src.pop(it)
+            # predicates of find take a reference to the item, the others the item itself
+            arg = Ref({"x": x}, "x") if kind == "find" else x
+            hit = call_closure(it, fn, a[1], [arg])
+            hit = it.decide(hit) if not isinstance(hit, bool) else hit
+            if kind == "all":
+                if not hit:
+                    return False
+            elif hit:
+                if kind == "any":
+                    return True
+                return En("Some", [x if kind == "find" else I(idx, "usize")], ty="Option")
+            idx += 1
+        if kind == "all":
+            return True
+        if kind == "any":
+            return False
+        return En("None", [], ty="Option")
     if kind == "fold":
         span = re.search(r"\{closure@([^}]*)\}", m.group(0))
         fn = closure_fn(it, span.group(1))
@@ -223,10 +246,10 @@ def n_npo2(it, a, d, m):
 
 NATIVES = [
     (R(r"core::num::<impl usize>::next_power_of_two"), n_npo2),
-    (R(r"core::slice::<impl \[.*\]>::iter"), n_iter),
+    (R(r"core::slice::<impl \[.*\]>::iter|core::slice::<impl \[.*\]>::iter_mut"), n_iter),
     (R(r"<&?(?:mut )?(?:std::vec::)?Vec<.*> as IntoIterator>::into_iter|<&\[.*\] as IntoIterator>::into_iter|<&\[.*; \d+\] as IntoIterator>::into_iter|<\[.*; \d+\] as IntoIterator>::into_iter"), n_into_iter),
-    (R(r"<(?:std::iter::)?(?:Take|Skip|Rev|Enumerate|Zip|Chain|FlatMap|Map|Copied|Cloned|ChunksExactMut|ChunksExact)<.*> as IntoIterator>::into_iter|<std::slice::Iter<'_, .*> as IntoIterator>::into_iter|<std::vec::IntoIter<.*> as IntoIterator>::into_iter"), pm.n_identity),
-    (R(r"<.* as (?:Iterator|DoubleEndedIterator)>::(take|skip|rev|enumerate|zip|chain|flat_map|fold|copied|cloned|map|next|collect)(?:::<.*>)?"), n_adapt),
+    (R(r"<(?:std::iter::)?(?:Take|Skip|Rev|Enumerate|Zip|Chain|FlatMap|Map|Copied|Cloned|ChunksExactMut|ChunksExact)<.*> as IntoIterator>::into_iter|<std::slice::Iter<'_, .*> as IntoIterator>::into_iter|<std::slice::IterMut<'_, .*> as IntoIterator>::into_iter|<std::vec::IntoIter<.*> as IntoIterator>::into_iter"), pm.n_identity),
+    (R(r"<.* as (?:Iterator|DoubleEndedIterator)>::(take|skip|rev|enumerate|zip|chain|flat_map|fold|find|position|any|all|copied|cloned|map|next|collect)(?:::<.*>)?"), n_adapt),
     (R(r"<(?:std::vec::)?Vec<.*> as Index<(?:std::ops::)?(RangeTo|RangeFrom|Range)<usize>>>::index|core::slice::index::<impl Index<(?:std::ops::)?(RangeTo|RangeFrom|Range)<usize>> for \[.*\]>::index"), n_index_range),
     (R(r"<\[.*\] as Index<(?:std::ops::)?(RangeTo|RangeFrom|Range)<usize>>>::index"), n_index_range),
     (R(r"<(?:std::vec::)?Vec<.*> as IndexMut<(?:std::ops::)?(RangeTo|RangeFrom|Range)<usize>>>::index_mut|<\[.*\] as IndexMut<(?:std::ops::)?(RangeTo|RangeFrom|Range)<usize>>>::index_mut"), n_index_range),
